@@ -14,7 +14,7 @@ from oracles import readers as OR
 ID = 'C10'
 LEVEL = 'exploration'
 ENGINE = 'history'
-BUDGET = {'quick': 3000, 'thorough': 200000}
+BUDGET = {'quick': 12000, 'thorough': 200000}
 WALL = {'quick': 45, 'thorough': 1500}
 RULE = ('one trash-empty [DAYS] per case over a trash whose entries have dates at now-DAYS+delta '
         '(delta in 0, +-1 s, +-1 day, year 1, future), malformed/duplicated/missing dates, several trash dirs; '
